@@ -36,6 +36,14 @@ Definition interval_text (fields : list (str * (str * bool))) (styles : istyle *
   | None => None
   end.
 
+(* ... and, since fix 19e2c2a, None = Err("interval literals are not supported for dialect ..") when the handler's
+   has_interval_literal() is false (sqlite, mssql) *)
+Definition interval_text_for (supported : bool) fields styles (digits unit : str) : option str :=
+  match lookup_str unit fields with
+  | Some _ => if supported then interval_text fields styles digits unit else None
+  | None => None
+  end.
+
 (* which unit name the text starts with (no name is a prefix of another: checked by the translator) *)
 Fixpoint match_unit (units : list str) (s : str) : option (str * str) :=
   match units with
